@@ -353,7 +353,10 @@ func c03Parked(p *Program, r *Report) {
 		f, _ := fieldAddr(st.Addr)
 		return f == lc.Zombie
 	})
-	resume := nodesWhere(g, func(in ssa.Instruction) bool { c := callOf(in); return c != nil && c.IsInvoke() && c.Method.Name() == "Resume" })
+	resume := nodesWhere(g, func(in ssa.Instruction) bool {
+		c := callOf(in)
+		return c != nil && c.IsInvoke() && c.Method.Name() == "Resume"
+	})
 	ok := len(zs) > 0 && len(resume) > 0
 	for z := range zs {
 		if anyIn(g.ReachAfter(z, resume, nil), g.Exits) {
